@@ -2,8 +2,10 @@
 (* below the input directories of the plan.                                                         *)
 (*                                                                                                  *)
 (* One step of first_pass is covered by Pipe/Confined.v and Pipe/ConfinedMove.v.  Two things are new *)
-(* for a whole run.  (1) The deferred renames of second_pass are issued WITHOUT a new containment    *)
-(* test: the tests were evaluated on an earlier tree.  What they said stays true as long as no       *)
+(* for a whole run.  (1) This file does not use the re-test of deferred renames (F38, see            *)
+(* Pipe/ConfinedRetest.v for the theorems that do): it reads the deferred renames of second_pass as  *)
+(* issued on the strength of the tests evaluated on an earlier tree, as the code before that repair  *)
+(* did ([pre_f38]).  What those tests said stays true as long as no                                  *)
 (* symbolic link has moved in between (realpath reads the tree only through its links) and the       *)
 (* input directory is still its own real path; without that the statement is false, see              *)
 (* [swap_run] at the end of this file.  (2) Every system call of the run is described as one         *)
@@ -604,6 +606,7 @@ Proof.
     pose proof (Forall_inv_tail Hbl) as Hrest.
     inversion E; subst d src dst0. clear E.
     destruct (chdir (w_fs w) (pf_dir f)) as [cwd1|] eqn:Hc; [|intros H; inversion H; subst; exact Tw].
+    destruct (backlog_verify fixed (w_fs w) (pf_dir f) (pf_rel f) dst); [intros H; inversion H; subst; exact Tw|].
     destruct (renamer c w cwd1 (pf_rel f) dst false) as [w1 e1] eqn:Rn.
     destruct (renamer_tracked _ _ _ _ _ _ _ Tw HfD Hs1 Ct Pc Sc Hc Rn) as [Tw1 [l Hl]].
     pose proof (renamer_answers _ _ _ _ _ _ _ _ Rn) as A1.
@@ -934,9 +937,13 @@ Definition swap_fs : fs :=
 Definition swap_plan : list (pfile * rendered) :=
   [(cr_file [cr_lnk; n_a], RText n_b); (cr_file [cr_lnk], RText cr_lnk2); (cr_file [cr_oth], RText cr_lnk)].
 
+(* the code before the repair of F38 ([pre_f38]: a deferred rename is retried without running the tests again) *)
+Definition cr_cfg_v (v : variant) (m : mode) : cfg :=
+  {| c_mode := m; c_strategy := Stop; c_dry := false; c_answers := []; c_fault := None; c_var := v |}.
+
 Example swap_run :
   WF swap_fs /\ chdir swap_fs [n_in] = Some [n_in] /\
-  (let r := run (cr_cfg MName) swap_plan [] swap_fs in (r_status r, r_final r)) =
+  (let r := run (cr_cfg_v pre_f38 MName) swap_plan [] swap_fs in (r_status r, r_final r)) =
   (0%Z,
    [([n_in], NDir); ([n_in; n_sub], NDir); ([n_in; n_sub; n_a], NFile 1); ([n_in; n_sub; n_b], NFile 2);
     ([n_in; cr_lnk2], NLink 4 {| up_abs := false; up_comps := [n_sub] |});
@@ -946,6 +953,30 @@ Example swap_run :
 Proof.
   split; [apply WfCheck.wf_b_sound; vm_compute; reflexivity|]. split; [vm_compute; reflexivity|].
   split; [vm_compute; reflexivity|]. split; reflexivity.
+Qed.
+
+(* the current code (F38 repaired) runs the tests again when the deferred rename is retried: "lnk/a" now lives in
+   /out, the run ends with InvalidDestinationError (status 1) after the two renames of links inside /in, and
+   everything outside the input directory is as it was *)
+Example swap_run_retested :
+  (let r := run (cr_cfg MName) swap_plan [] swap_fs in (r_status r, r_error r, r_final r, r_calls r)) =
+  (1%Z, Some ExInvalidDest,
+   [([n_in], NDir); ([n_in; n_sub], NDir); ([n_in; n_sub; n_a], NFile 1); ([n_in; n_sub; n_b], NFile 2);
+    ([n_in; cr_lnk2], NLink 4 {| up_abs := false; up_comps := [n_sub] |});
+    ([n_in; cr_lnk], NLink 5 {| up_abs := true; up_comps := [cr_out] |});
+    ([cr_out], NDir); ([cr_out; n_a], NFile 3)],
+   [(CRename, COk); (CRename, COk)]) /\
+  (forall k n, is_prefix_path [n_in] k = false ->
+     (In (k, n) (r_final (run (cr_cfg MName) swap_plan [] swap_fs)) <-> In (k, n) swap_fs)).
+Proof.
+  split; [vm_compute; reflexivity|].
+  assert (E : r_final (run (cr_cfg MName) swap_plan [] swap_fs) =
+   [([n_in], NDir); ([n_in; n_sub], NDir); ([n_in; n_sub; n_a], NFile 1); ([n_in; n_sub; n_b], NFile 2);
+    ([n_in; cr_lnk2], NLink 4 {| up_abs := false; up_comps := [n_sub] |});
+    ([n_in; cr_lnk], NLink 5 {| up_abs := true; up_comps := [cr_out] |});
+    ([cr_out], NDir); ([cr_out; n_a], NFile 3)]) by (vm_compute; reflexivity).
+  rewrite E. intros k n Hk. unfold swap_fs. split; intros H; cbn [In] in H |- *;
+    repeat (destruct H as [H|H]; [inversion H; subst; try (vm_compute in Hk; discriminate Hk); tauto|]); contradiction.
 Qed.
 
 (* ---------- in between: the input directories by a condition on the plan, the links by a condition on the run ---------- *)
